@@ -261,4 +261,5 @@ pub fn run(rec: &mut Rec) {
         slice_a_run::<SMar377>(rec, 3);
         slice_a_run::<SSon377>(rec, 3);
     }
+    crate::special::c01_special(rec);
 }
